@@ -14,36 +14,81 @@ from run import core, classinfo
 from checks import bytes_common as bc
 
 
-def rt_job(info, cn, nmax, prop='C01', extra_assume=None, suffix=''):
+def size_vectors(nvec, nmax):
+    """concrete container-size vectors: all-equal 0..nmax (every residue mod 4, empty, >= one word), plus two mixed ones"""
+    if nvec == 0: return [()]
+    out = [tuple([n] * nvec) for n in range(nmax + 1)]
+    if nvec > 1:
+        out.append(tuple((i + 1) % (nmax + 1) for i in range(nvec)))
+        out.append(tuple((nmax - i) % (nmax + 1) for i in range(nvec)))
+    return out
+
+
+def rt_job(info, cn, nmax, prop='C01', extra_assume=None, suffix='', only_scen=None):
+    """one job per class: the round trip is run for a list of CONCRETE container-size vectors (all loop bounds and
+       stream positions are then concrete), with every scalar value, array content and container content symbolic."""
     rd = info.classes[cn]['vtable']['read']; wr = info.classes[cn]['vtable']['write']
+    vecs = [l for l in info.leaves(cn) if l['kind'] == 'vec']
     src = bc.prelude(info, cn, nmax)
     src += bc.havoc_decls(info, cn, nmax)
     cap = bc.stream_cap(info, cn, nmax)
-    src += 'void harness(void)\n{\n    struct %s x, y; size_t k;\n' % cn
-    src += '    %s_ctor(&x); %s_ctor(&y);\n' % (cn, cn)
-    src += bc.havoc_inputs(info, cn, nmax)
-    src += bc.populate(info, cn, 'x', nmax)
-    if extra_assume: src += '    __CPROVER_assume(%s);\n' % extra_assume
-    src += '    __CPROVER_assert(vb_exc == 0, "%s/%s/roundtrip/setup-no-exception");\n' % (prop, cn)
-    src += '    uint8_t buf[%d]; struct AbstractFile f; f.buf = buf; f.cap = %d; f.g = 0; f.p = 0; f.fileSize = INT64_MAX; f.rdstate = 0; f.gcount = 0; f.hdr_end = -1;\n' % (cap, cap)
-    n = [1]
+    n = [0]
+    body = ''
     def A(cond, label):
-        nonlocal src
-        src += '    __CPROVER_assert(%s, "%s");\n' % (cond, label); n[0] += 1
-    src += '    %s(%s, &f);\n' % (wr['fn'], '&x' if not wr['self'] else '&x.' + wr['self'])
+        nonlocal body
+        body += '    __CPROVER_assert(%s, "%s");\n' % (cond, label); n[0] += 1
+    scen = bc.optional(info).get(cn, {}).get('scenarios') or [{}]
+    n_scen = len(scen)
+    if only_scen is not None: scen = [scen[only_scen]]
+    sel_paths = sorted({k for sc in scen for k in sc})
+    leaves_by_path = {l['path']: l for l in info.leaves(cn)}
+    for sp in sel_paths:
+        if sp not in leaves_by_path: raise core.Inconclusive('spec/optional_members.json: %s.%s is not a member' % (cn, sp))
+    params = ', '.join(['size_t s%d' % i for i in range(len(vecs))] +
+                       ['%s c%d' % (leaves_by_path[sp]['ctype'], i) for i, sp in enumerate(sel_paths)]) or 'void'
+    src += 'static void scenario(%s)\n{\n    struct %s x, y; size_t k;\n' % (params, cn)
+    src += '    vb_exc = 0;\n    %s_ctor(&x); %s_ctor(&y);\n' % (cn, cn)
+    src += bc.havoc_inputs(info, cn, nmax)
+    for i, v in enumerate(vecs):
+        src += '    in_%s__size = s%d;\n' % (classinfo.cid(v['path']), i)
+    for i, sp in enumerate(sel_paths):
+        src += '    in_%s = c%d;\n' % (classinfo.cid(sp), i)
+    src += bc.populate(info, cn, 'x', nmax)
+    if extra_assume: src += '    if (!(%s)) return;   /* inside the witness region of a recorded finding */\n' % extra_assume
+    src += '    uint8_t buf[%d]; struct AbstractFile f; f.buf = buf; f.cap = %d; f.g = 0; f.p = 0; f.fileSize = INT64_MAX; f.rdstate = 0; f.gcount = 0; f.hdr_end = -1;\n' % (cap, cap)
+    A('vb_exc == 0', '%s/%s/roundtrip/setup-no-exception' % (prop, cn))
+    body += '    %s(%s, &f);\n' % (wr['fn'], '&x' if not wr['self'] else '&x.' + wr['self'])
     A('vb_exc == 0', '%s/%s/roundtrip/write-raises-no-exception' % (prop, cn))
-    src += '    f.fileSize = f.p;\n'
-    src += '    %s(%s, &f);\n' % (rd['fn'], '&y' if not rd['self'] else '&y.' + rd['self'])
+    body += '    f.fileSize = f.p;\n'
+    body += '    %s(%s, &f);\n' % (rd['fn'], '&y' if not rd['self'] else '&y.' + rd['self'])
     A('vb_exc == 0', '%s/%s/roundtrip/read-raises-no-exception' % (prop, cn))
     A('f.rdstate == 0', '%s/%s/roundtrip/stream-good-after-read' % (prop, cn))
     A('f.g == f.p', '%s/%s/roundtrip/RT3-decoding-consumes-exactly-what-was-emitted' % (prop, cn))
     bc.compare_members(info, cn, '%s/%s/roundtrip' % (prop, cn), A)
-    A('0', 'canary')
-    src += '}\n'
-    return core.Job('%s_%s_roundtrip%s' % (prop, cn, suffix), src, route='harness', unwind=nmax + 2,
-                    functions=['%s::write' % cn, '%s::read' % cn], canary_ids=['harness.assertion.%d' % n[0]],
-                    timeout=600 if nmax <= 8 else 1500, flags=bc.FLAGS,
-                    bounded='payload containers <= %d elements (unwinding assertions on); scalars full width' % nmax)
+    src += body + '}\n'
+    svs = size_vectors(len(vecs), nmax)
+    if n_scen * len(svs) > 48:
+        svs = size_vectors(len(vecs), 4)      # many layout variants: fewer payload sizes per variant
+    src += 'void harness(void)\n{\n'
+    for sc in scen:
+        for sv in svs:
+            args = [str(x) for x in sv] + ['%du' % sc[sp] for sp in sel_paths]
+            src += '    scenario(%s);\n' % ', '.join(args)
+    src += '    __CPROVER_assert(0, "canary");\n}\n'
+    if only_scen is not None: suffix = '_v%d%s' % (only_scen, suffix)
+    return core.Job('%s_%s_roundtrip%s' % (prop, cn, suffix), src, route='harness', unwind=max(cap, 600) + 2,
+                    functions=['%s::write' % cn, '%s::read' % cn], canary_ids=['harness.assertion.1'],
+                    timeout=900, flags=bc.FLAGS + ['--max-field-sensitivity-array-size', '4096'],
+                    bounded=(('container sizes enumerated over %s (concrete); ' % (svs,) if vecs else '') +
+                             ('layout selectors enumerated over %s; ' % scen if sel_paths else '') +
+                             'contents and every other scalar symbolic at full width') if (vecs or sel_paths) else None)
+
+
+def rt_jobs(info, cn, nmax, prop='C01', extra_assume=None, suffix=''):
+    """one job per layout variant (selector scenario) of the class"""
+    scen = bc.optional(info).get(cn, {}).get('scenarios')
+    if not scen: return [rt_job(info, cn, nmax, prop, extra_assume, suffix)]
+    return [rt_job(info, cn, nmax, prop, extra_assume, suffix, only_scen=i) for i in range(len(scen))]
 
 
 def classes_for(info):
@@ -61,12 +106,12 @@ def main():
     for cn in classes_for(info):
         if only and cn not in only: continue
         k = known.get('C01_%s_roundtrip' % cn)
-        jobs.append(rt_job(info, cn, nmax, extra_assume=k['exclude_requires'] if k else None))
+        jobs += rt_jobs(info, cn, nmax, extra_assume=k['exclude_requires'] if k else None)
     comp = []
     for cn in classes_for(info):
         if only and cn not in only: continue
         k = known.get('C01_%s_roundtrip' % cn)
-        if k: comp.append(rt_job(info, cn, nmax, extra_assume='!(%s)' % k['exclude_requires'], suffix='__finding'))
+        if k: comp += rt_jobs(info, cn, nmax, extra_assume='!(%s)' % k['exclude_requires'], suffix='__finding')
     rep = core.Report('C01')
     rep.assumptions = ['payload content round trip is checked for container lengths <= %d only (bounded stand-in); the length dimension beyond that is covered at count level by C03 (emitted == objectSize for every length) and C10 (consumption)' % nmax,
                        'stream semantics of the BYTES flavour are those C15 proves of UncompressedFile',
@@ -75,14 +120,23 @@ def main():
     cres = [r for r in results if r.job.name.endswith('__finding')]
     results = [r for r in results if not r.job.name.endswith('__finding')]
     rep.add_results(results)
+    import re as _re
+    seen_k = {}
     for r in cres:
-        k = known[r.job.name[:-len('__finding')]]
-        if r.status == 'failed':
+        base = _re.sub(r'(_v\d+)?__finding$', '', r.job.name)
+        k = known[base]
+        st = seen_k.setdefault(base, {'failed': 0, 'ok': 0, 'other': []})
+        if r.status == 'failed': st['failed'] += 1
+        elif r.status in ('ok',): st['ok'] += 1
+        elif 'canary' in r.reason: st['ok'] += 1     # this layout variant does not intersect the witness region
+        else: st['other'].append('%s: %s' % (r.job.name, r.reason))
+    for base, st in seen_k.items():
+        k = known[base]
+        if st['failed']:
             rep.known.append('%s - %s [witness: %s]' % (', '.join(k.get('labels', [])), k['what'], k['witness']))
-        elif r.status == 'ok':
+        elif not st['other']:
             rep.known.append('%s - listed finding no longer reproduces (%s)' % (', '.join(k.get('labels', [])), k['what']))
-        else:
-            rep.inconclusive.append('%s: %s' % (r.job.name, r.reason))
+        rep.inconclusive += st['other']
     core.triage(rep, results, info)
     return rep.finish('proof', 'goto-cc | cbmc --unwind N+2 --unwinding-assertions ' + ' '.join(bc.FLAGS) + ' (explicit round-trip harness on the extracted codecs, BYTES stream model)',
                       core.TRUSTED_BASE)
